@@ -680,7 +680,7 @@ func runFault(c *Case, tr *Trace) {
 		pv := newValue(&t, &v)
 		fold := func(failAt int) (*Recorder, error) {
 			rec := &Recorder{FailAt: failAt}
-			it, err := gotype.NewIterator(rec)
+			it, err := gotype.NewIterator(rec, userFolders)
 			if err != nil {
 				panic("harness: NewIterator: " + err.Error())
 			}
